@@ -90,6 +90,29 @@ where
     O: Send + Sync + 'static,
     S: IntoSystem<I, O, Marker> + Send + Sync + 'static,
 {
+    let result = syscall_without_flush(world, input, system, validation);
+
+    // apply commands the system queued directly on the world's command queue (e.g. through `DeferredWorld`)
+    world.flush();
+
+    result
+}
+
+/// Same as [`syscall_with_validation`] except the world's own command queue is left alone.
+///
+/// For callers inside the crate that must not run arbitrary queued commands at this point (e.g. while they hold the
+/// `ReactCache`).
+pub(crate) fn syscall_without_flush<I, O, S, Marker>(
+    world: &mut World,
+    input: <I as SystemInput>::Inner<'_>,
+    system: S,
+    validation: fn(&mut World)
+) -> O
+where
+    I: Send + Sync + SystemInput + 'static,
+    O: Send + Sync + 'static,
+    S: IntoSystem<I, O, Marker> + Send + Sync + 'static,
+{
     // get the initialized system
     let mut system =
         match world.remove_resource::<InitializedSystem<I, O, S>>()
@@ -209,7 +232,9 @@ impl WorldSyscallExt for World
     {
         let mut sys = IntoSystem::into_system(system);
         sys.initialize(self);
-        sys.run(input, self)
+        let result = sys.run(input, self);
+        self.flush();
+        result
     }
 
     fn syscall_once_with_validation<I, O, S, Marker>(
@@ -226,7 +251,9 @@ impl WorldSyscallExt for World
         (validation)(self);
         let mut sys = IntoSystem::into_system(system);
         sys.initialize(self);
-        sys.run(input, self)
+        let result = sys.run(input, self);
+        self.flush();
+        result
     }
 }
 
